@@ -290,7 +290,8 @@ func (s *seqState) setMarkets(sets [][]int, active []bool) {
 		}
 		ms = append(ms, pftypes.Market{MarketID: marketID(i), BaseAsset: fmt.Sprintf("mkt%d", i), QuoteAsset: "usd", Oracles: os, Active: active[i]})
 	}
-	s.w.tApp.GetPriceFeedKeeper().SetParams(s.ctx, pftypes.NewParams(ms))
+	pp := pftypes.NewParams(ms)
+	kapp.SetParams(s.w.tApp, s.ctx, "pricefeed", &pp, func() { s.w.tApp.GetPriceFeedKeeper().SetParams(s.ctx, pp) })
 }
 
 func (s *seqState) randomOracleSets() [][]int {
